@@ -297,7 +297,7 @@ func c12Check(in c12Input) (key, what string) {
 func c12Prop(c *Ctx) {
 	c.Res.Rule = "groups of 1-4 sources (hand corpus + $GOROOT/src sample) randomly decorated (density 1/3, 1/8 or none) and restored into one shared FileSet; non-trivial = distinct (sources, seed, density)"
 	srcs := oracleSources(c, c.N(24), 8000)
-	for i := 0; i < c.N(30); i++ {
+	for i := 0; i < c.N(120); i++ {
 		n := 1 + c.Rng.Intn(4)
 		in := c12Input{Seed: c.Rng.Int63(), Dens: []int{0, 3, 8}[c.Rng.Intn(3)], Lines: c.Rng.Intn(3) == 0, Reuse: c.Rng.Intn(2) == 0}
 		for j := 0; j < n; j++ {
